@@ -1,6 +1,7 @@
 import ActixModel.Proofs.Multipart
 import ActixModel.Proofs.MultipartScan
 import ActixModel.Proofs.MultipartTerm
+import ActixModel.Proofs.MultipartStable
 /-
 C15 — multipart parsing is exact, segmentation-independent, terminating and buffer-bounded.
 Model: `ActixModel/Model/Multipart.lean`; helper lemmas: `ActixModel/Proofs/Multipart.lean`.
@@ -200,7 +201,8 @@ the composition of the proved pieces over the whole state machine was not carrie
 
 What is proved instead: the content of every part under every feeding schedule (`C15_exact_partial`,
 `C15_segmentation_partial` below = `C15_field_exact`, `C15_field_segmentation`), the stability of every
-line/header-block decision under continuation (`C15_line_stable`), that `poll_stream` only moves bytes
+line/header-block decision and of the whole `Inner::poll` decision under continuation (`C15_line_stable`,
+`C15_inner_stable`), that `poll_stream` only moves bytes
 towards the buffer in order (`rem` is preserved: `pollStream_mu`), termination and the buffer bound for
 the whole machine.  The whole-machine statements are checked on every run by the correspondence and by
 the independent oracles (generator ground truth; same bytes re-cut whole / byte-wise).
@@ -214,6 +216,30 @@ theorem C15_exact_partial (b : Bytes) (ops : List FOp) (c r : Bytes)
   have := C15_field_exact b ops
   simp only [h] at this
   exact this
+
+/-- **C15_field_roundtrip.** Encoding direction: if a part's content `c` is followed by the delimiter
+and no delimiter starts earlier (in particular `c` may end in CR, CR LF, `--`, `CR LF --`, contain
+boundary prefixes or the bare boundary), then under every schedule exactly `c` is delivered and the
+buffer is left at the delimiter. -/
+theorem C15_field_roundtrip (b c rest : Bytes) (ops : List FOp)
+    (hf : feedsOf ops = c ++ (delim b ++ rest))
+    (hc : ∀ p, p < c.length → ¬ delimAt b (c ++ (delim b ++ rest)) p) :
+    let s := fsClose Cfg.fixed b ((feedsOf ops).length + 1) (ops.foldl (fsOp Cfg.fixed b) ⟨[], [], none⟩)
+    s.out = c ∧ s.buf = delim b ++ rest ∧ s.done = some none := by
+  have hs : splitDelim b (feedsOf ops) = some (c, delim b ++ rest) := by
+    rw [hf, splitDelim_skip c.length _ (by simp) hc]
+    simp only [List.drop_left', List.take_left']
+    rw [splitDelim_here (List.prefix_append _ _)]
+    simp
+  exact C15_exact_partial b ops c (delim b ++ rest) hs
+
+/-- content `d CR LF - -` (ends in a delimiter look-alike) in front of the real delimiter `CR LF - - B`:
+no delimiter starts inside it -/
+example : ∀ p, p < [100, 13, 10, 45, 45].length →
+    ¬ delimAt [66] ([100, 13, 10, 45, 45] ++ (delim [66] ++ [13, 10])) p := by
+  intro p hp
+  have : p = 0 ∨ p = 1 ∨ p = 2 ∨ p = 3 ∨ p = 4 := by simp at hp; omega
+  rcases this with rfl | rfl | rfl | rfl | rfl <;> (unfold delimAt; decide)
 
 /-- the part of `C15_segmentation` that is proved: same bytes, any two schedules ⇒ same content,
 same outcome, same rest (see above) -/
@@ -267,6 +293,28 @@ theorem C15_line_stable (needle buf c r ext : Bytes) (eof eof' : Bool)
   readUntil_stable h ext eof'
 
 example : readUntil [10] [45, 45, 66, 13, 10, 120] false = .ok (some ([45, 45, 66, 13, 10], [120])) := rfl
+
+/-- **C15_inner_stable** (`Inner::poll`, all of its readers composed). If the `Multipart` state machine,
+looking at a buffer with the stream still open, delivers the next field (header block parsed and
+checked), reports the end of the body, or fails, then it takes exactly the same decision — same field
+data or error, same next state, same bytes consumed — on every continuation `buf ++ ext` of that buffer
+and for either end-of-stream flag: which field comes next never depends on where the body was cut.
+(Previous field read to its end, as the read-all consumer does.) -/
+theorem C15_inner_stable (i : Inner) (ext : Bytes) (eof' : Bool)
+    (he : i.pb.eof = false)
+    (hitem : i.item = none ∨ ∃ f, i.item = some f ∧ f.hasPayload = false)
+    (hp : (innerPoll Cfg.fixed i).2 ≠ .pending) :
+    innerPoll Cfg.fixed (withBuf i (i.pb.buf ++ ext) eof') =
+      (withBuf (innerPoll Cfg.fixed i).1 ((innerPoll Cfg.fixed i).1.pb.buf ++ ext) eof',
+        (innerPoll Cfg.fixed i).2) :=
+  innerPoll_stable Cfg.fixed i ext eof' he hitem hp
+
+/-- the hypotheses are met e.g. by the initial state looking at `--B CRLF X:1 CRLF CRLF d`: a field with
+header `x: 1` is delivered -/
+example :
+    (innerPoll Cfg.fixed { (initSys [66] false 64 [] []).inner with
+        pb := ⟨[45, 45, 66, 13, 10, 88, 58, 49, 13, 10, 13, 10, 100], none, false, 64, []⟩ }).2
+      = .field ⟨[([120], [49])], none⟩ := by decide
 
 /-! ## the defects found, as theorems about the pre-repair variants of the same model -/
 
